@@ -1,6 +1,7 @@
 package props
 
 import (
+	"os"
 	"fmt"
 	"go/ast"
 	"go/constant"
@@ -237,7 +238,7 @@ func modifiedOnPath(fi *core.FuncInfo, fl *core.Flow, anchor ast.Node, use ast.N
 				match = true
 			}
 		}
-		if !match {
+		if !match || stmt == anchor {
 			return
 		}
 		mb, mi, ok := fl.Locate(stmt)
@@ -552,6 +553,12 @@ func boundsSites(p *core.Prog, fis []*core.FuncInfo, strIdxOK map[token.Pos]bool
 						}
 					}
 				}
+				// I11: counted loops and length aliases: index i+k with i bounded below by its initial value and above by a
+				// dominating comparison with len(X)-c (aliases of len expressions resolved)
+				if okk, how := affineIndex(fi, flowOf(x), info, x, xs); okk {
+					add(x, "index", true, how)
+					return true
+				}
 				add(x, "index", false, "no idiom matched")
 				return true
 			case *ast.SliceExpr:
@@ -674,6 +681,253 @@ func boundsSites(p *core.Prog, fis []*core.FuncInfo, strIdxOK map[token.Pos]bool
 		ast.Inspect(fi.Decl.Body, visit)
 	}
 	return out
+}
+
+// lenForm resolves e to len(X)+c following single-definition aliases (n := len(x); last := len(x)-1).
+func lenForm(fi *core.FuncInfo, e ast.Expr, depth int) (x string, c int64, ok bool) {
+	info := fi.Pkg.TypesInfo
+	e = ast.Unparen(e)
+	if call, isCall := e.(*ast.CallExpr); isCall && len(call.Args) == 1 {
+		if id, isId := call.Fun.(*ast.Ident); isId && id.Name == "len" {
+			return exprStr(call.Args[0]), 0, true
+		}
+	}
+	if be, isBin := e.(*ast.BinaryExpr); isBin && (be.Op == token.SUB || be.Op == token.ADD) {
+		if k, isConst := intConst(info, be.Y); isConst {
+			if x, c0, ok := lenForm(fi, be.X, depth); ok {
+				if be.Op == token.SUB {
+					return x, c0 - k, true
+				}
+				return x, c0 + k, true
+			}
+		}
+	}
+	if id, isId := e.(*ast.Ident); isId && depth < 3 {
+		if d := singleDef(fi, core.ObjOf(info, id)); d != nil {
+			if x, c, ok := lenForm(fi, d.Rhs, depth+1); ok {
+				// the measured slice must not change between the alias and its use: checked by the caller through modifiedOnPath on X
+				return x, c, true
+			}
+		}
+	}
+	return "", 0, false
+}
+
+// idxForm splits an index expression into variable + constant offset (i, i+k, i-k) or a length form.
+func idxForm(info *types.Info, e ast.Expr) (v types.Object, k int64, ok bool) {
+	e = ast.Unparen(e)
+	if id, isId := e.(*ast.Ident); isId {
+		if o, isVar := info.Uses[id].(*types.Var); isVar {
+			return o, 0, true
+		}
+		return nil, 0, false
+	}
+	if be, isBin := e.(*ast.BinaryExpr); isBin && (be.Op == token.ADD || be.Op == token.SUB) {
+		if c, isConst := intConst(info, be.Y); isConst {
+			if v, k0, ok := idxForm(info, be.X); ok {
+				if be.Op == token.SUB {
+					return v, k0 - c, true
+				}
+				return v, k0 + c, true
+			}
+		}
+	}
+	return nil, 0, false
+}
+
+// varBounds: constant lower bound of an integer variable from its definitions: one initial constant definition and
+// otherwise only increments (lower bound = initial value) — or, with decrements, no bound from definitions.
+func varLowerBound(fi *core.FuncInfo, o types.Object) (int64, bool) {
+	info := fi.Pkg.TypesInfo
+	if o == nil || isParam(fi, o) {
+		return 0, false
+	}
+	var init *int64
+	for _, d := range defsOf(fi, o) {
+		switch st := d.Stmt.(type) {
+		case *ast.IncDecStmt:
+			if st.Tok != token.INC {
+				return 0, false
+			}
+		case *ast.RangeStmt:
+			if st.Key != nil && core.ObjOf(info, st.Key) == o {
+				z := int64(0)
+				if init == nil || *init > 0 {
+					init = &z
+				}
+				continue
+			}
+			return 0, false
+		case *ast.AssignStmt:
+			if d.Rhs == nil {
+				return 0, false
+			}
+			if st.Tok == token.ADD_ASSIGN {
+				if c, ok := intConst(info, d.Rhs); ok && c >= 0 {
+					continue
+				}
+				return 0, false
+			}
+			c, ok := intConst(info, d.Rhs)
+			if !ok {
+				return 0, false
+			}
+			if init == nil || c < *init {
+				cc := c
+				init = &cc
+			}
+		default:
+			return 0, false
+		}
+	}
+	if init == nil {
+		return 0, false
+	}
+	return *init, true
+}
+
+// affineIndex decides X[i+k] (or X[len(X)-c] through an alias) from dominating comparisons.
+func affineIndex(fi *core.FuncInfo, fl *core.Flow, info *types.Info, x *ast.IndexExpr, xs string) (bool, string) {
+	var atoms []core.Guard
+	for _, g := range fl.GuardsOfNode(x) {
+		atoms = append(atoms, g.Atoms()...)
+	}
+	stable := func(a core.Guard) bool {
+		return !modifiedOnPath(fi, fl, a.Cond, x, varsIn(info, a.Cond), []string{xs})
+	}
+	// normalise an atom to  lhs <op> rhs  with polarity applied
+	type cmp struct {
+		l, r ast.Expr
+		op   token.Token
+		g    core.Guard
+	}
+	var cmps []cmp
+	for _, a := range atoms {
+		be, ok := ast.Unparen(a.Cond).(*ast.BinaryExpr)
+		if !ok {
+			continue
+		}
+		op := be.Op
+		if !a.True {
+			switch op {
+			case token.LSS:
+				op = token.GEQ
+			case token.GEQ:
+				op = token.LSS
+			case token.GTR:
+				op = token.LEQ
+			case token.LEQ:
+				op = token.GTR
+			case token.EQL:
+				op = token.NEQ
+			case token.NEQ:
+				op = token.EQL
+			default:
+				continue
+			}
+		}
+		cmps = append(cmps, cmp{be.X, be.Y, op, a})
+	}
+	// case A: the index is a length form len(X)-c (directly or through an alias): needs len(X) ≥ c and c ≥ 1
+	if lx, c, ok := lenForm(fi, x.Index, 0); ok && lx == xs && c <= -1 {
+		need := -c
+		for _, cm := range cmps {
+			if fx, m, ok := lenFactOf(info, cm.g); ok && fx == xs && m >= need && stable(cm.g) {
+				return true, fmt.Sprintf("index is len(%s)%d; dominating test establishes len ≥ %d", xs, c, m)
+			}
+		}
+		// a comparison of the alias itself: last >= 0
+		if v, _, ok := idxForm(info, x.Index); ok && v != nil {
+			for _, cm := range cmps {
+				if core.ObjOf(info, cm.l) == v {
+					if k, isConst := intConst(info, cm.r); isConst && ((cm.op == token.GEQ && k >= 0) || (cm.op == token.GTR && k >= -1)) && stable(cm.g) {
+						return true, "index is an alias of len(" + xs + ")-c tested non-negative"
+					}
+				}
+			}
+		}
+		return false, ""
+	}
+	v, k, ok := idxForm(info, x.Index)
+	if !ok || v == nil {
+		return false, ""
+	}
+	// lower bound: i+k ≥ 0
+	lowOK, lowHow := false, ""
+	if lb, ok := varLowerBound(fi, v); ok && lb+k >= 0 {
+		lowOK, lowHow = true, fmt.Sprintf("%s ≥ %d by its definitions", v.Name(), lb)
+	}
+	for _, cm := range cmps {
+		if core.ObjOf(info, cm.l) == v && !lowOK {
+			if c, isConst := intConst(info, cm.r); isConst && stable(cm.g) {
+				if (cm.op == token.GEQ && c+k >= 0) || (cm.op == token.GTR && c+1+k >= 0) {
+					lowOK, lowHow = true, "dominating "+exprStr(cm.g.Cond)
+				}
+			}
+		}
+	}
+	if !lowOK {
+		return false, ""
+	}
+	// upper bound: i+k < len(X)
+	for _, cm := range cmps {
+		if core.ObjOf(info, cm.l) != v {
+			continue
+		}
+		lx, c, ok := lenForm(fi, cm.r, 0)
+		if !ok {
+			// X := make([]T, n) and the comparison is with that very n
+			if rid, isId := ast.Unparen(cm.r).(*ast.Ident); isId {
+				if xo := core.ObjOf(info, x.X); xo != nil {
+					if d := singleDef(fi, xo); d != nil {
+						if mk, isCall := ast.Unparen(d.Rhs).(*ast.CallExpr); isCall && exprStr(mk.Fun) == "make" && len(mk.Args) >= 2 && core.ObjOf(info, mk.Args[1]) == core.ObjOf(info, rid) && core.ObjOf(info, rid) != nil {
+							if !modifiedOnPath(fi, fl, d.Stmt, x, map[types.Object]bool{core.ObjOf(info, rid): true}, []string{xs}) {
+								lx, c, ok = xs, 0, true
+							}
+						}
+					}
+				}
+			}
+		}
+		if !ok || lx != xs || !stable(cm.g) {
+			continue
+		}
+		// i < len+c  ⇒ i+k < len iff k ≤ -c ;  i <= len+c ⇒ i+k < len iff k < -c
+		if (cm.op == token.LSS && k <= -c) || (cm.op == token.LEQ && k < -c) {
+			return true, lowHow + "; dominating " + exprStr(cm.g.Cond)
+		}
+	}
+	// decreasing loops: i := len(X)-c0 (c0 ≥ 1), only decremented
+	if init, onlyDec := decreasingFromLen(fi, v, xs); onlyDec && k <= init-0 && k+(-init) < 0 {
+		return true, lowHow + "; " + v.Name() + " starts at len(" + xs + ")" + fmt.Sprint(-init) + " and only decreases"
+	}
+	return false, ""
+}
+
+// decreasingFromLen: v := len(X)-c0 once, otherwise only v-- : returns c0.
+func decreasingFromLen(fi *core.FuncInfo, v types.Object, xs string) (int64, bool) {
+	var c0 int64
+	seen := false
+	for _, d := range defsOf(fi, v) {
+		switch st := d.Stmt.(type) {
+		case *ast.IncDecStmt:
+			if st.Tok != token.DEC {
+				return 0, false
+			}
+		case *ast.AssignStmt:
+			if d.Rhs == nil || seen {
+				return 0, false
+			}
+			lx, c, ok := lenForm(fi, d.Rhs, 0)
+			if !ok || lx != xs || c > -1 {
+				return 0, false
+			}
+			c0, seen = -c, true
+		default:
+			return 0, false
+		}
+	}
+	return c0, seen
 }
 
 // singleDef returns the only definition of a local variable (nil when it has several or none).
@@ -965,6 +1219,9 @@ func lowLeHigh(fi *core.FuncInfo, fl *core.Flow, x *ast.SliceExpr) (bool, string
 func init() {
 	dumpers["bounds"] = func(p *core.Prog) {
 		rels := []string{"d2parser", "d2ast", "d2format"}
+		if extra := os.Getenv("D2VERIF_BOUNDS_PKGS"); extra != "" {
+			rels = strings.Split(extra, ",")
+		}
 		strOK := map[token.Pos]bool{}
 		for _, u := range strIndexUses(p, rels) {
 			if u.ok {
